@@ -84,6 +84,7 @@ func runC05(c *Ctx) {
 	c05Recover(c, m)
 	c05Panics(c, m, fns, chains)
 	c05ErrUse(c, m, fns)
+	c05SharedPointers(c, m, fns)
 	c05FailParks(c, m)
 	c05WriteRegion(c, m)
 	c05Wrap(c, m)
@@ -950,4 +951,154 @@ func c05ErrorsChecked(c *Ctx, m *Module, fns []*ssa.Function) {
 		}
 	}
 	r.Check("C05.errors-checked", "error-returning calls enumerated", "-", n >= 40, fmt.Sprintf("%d error-returning calls, %d with the error discarded", n, dropped))
+}
+
+// c05SharedPointers: a pointer read from a shared atomic.Pointer may be nil at any time (a failed
+// rotation stores nil; a counter may not be attached yet): every dereference of such a value —
+// a field access, a method call with it as pointer receiver — in the code reachable from the
+// host's entry points lies under a test that it is not nil. A test made by a caller, or before a
+// lock was taken, does not count: the value is loaded afresh.
+// Pointers that are nil only before publication (one line of reason each).
+var c05LinkInvariant = map[string]string{
+	"Counter#next": "register sets c.next (CAS from nil) before it publishes c as the list head; every counter reachable from f.counters therefore has a non-nil next, and the list ends in the sentinel &f.end (nil means: not registered yet, tested in register only)",
+}
+
+func c05SharedPointers(c *Ctx, m *Module, fns []*ssa.Function) {
+	r := c.R
+	n := 0
+	isLoad := func(cs ssa.CallInstruction) (*ssa.Call, string, bool) {
+		cl, ok := cs.(*ssa.Call)
+		if !ok {
+			return nil, "", false
+		}
+		name := calleeName(&cl.Call)
+		if !strings.HasPrefix(name, "(*sync/atomic.Pointer[") || !strings.HasSuffix(name, ").Load") && !strings.Contains(name, ").Load[") {
+			return nil, "", false
+		}
+		fa, ok := cl.Call.Args[0].(*ssa.FieldAddr)
+		if !ok {
+			return nil, "", false
+		}
+		return cl, fmt.Sprintf("%s#%s", fa.X.Type().String(), refFieldName(fa.X.Type(), fa.Field)), true
+	}
+	// a local variable that is assigned once holds the value it was given: its loads are the value
+	var aliasOf func(x ssa.Value) ssa.Value
+	aliasOf = func(x ssa.Value) ssa.Value {
+		x = strip(x)
+		if ld, ok := x.(*ssa.UnOp); ok && ld.Op == token.MUL {
+			if a, ok := ld.X.(*ssa.Alloc); ok {
+				if sv := singleStore(a); sv != nil {
+					return aliasOf(sv)
+				}
+			}
+		}
+		return x
+	}
+	isNilTest := func(v ssa.Value) func(fc Fact) bool {
+		return func(fc Fact) bool {
+			bo, isB := fc.Cond.(*ssa.BinOp)
+			if !isB || (bo.Op != token.EQL && bo.Op != token.NEQ) {
+				return false
+			}
+			other := bo.Y
+			if aliasOf(bo.X) != aliasOf(v) {
+				if aliasOf(bo.Y) != aliasOf(v) {
+					return false
+				}
+				other = bo.X
+			}
+			k, isC := other.(*ssa.Const)
+			return isC && k.IsNil() && fc.Pol == (bo.Op == token.NEQ)
+		}
+	}
+	// the pointers the code itself believes can be nil: some load of the field is compared with nil
+	// (the others — the links of the counter list, which ends in a sentinel — rest on an invariant)
+	nilable := map[string]bool{}
+	for _, f := range moduleFuncsOf(m.Prog) {
+		for _, cs := range callsIn(f) {
+			cl, key, ok := isLoad(cs)
+			if !ok {
+				continue
+			}
+			for _, u := range referrers(cl) {
+				if bo, isB := u.(*ssa.BinOp); isB && (bo.Op == token.EQL || bo.Op == token.NEQ) {
+					if k, isC := bo.Y.(*ssa.Const); isC && k.IsNil() {
+						nilable[key] = true
+					}
+					if k, isC := bo.X.(*ssa.Const); isC && k.IsNil() {
+						nilable[key] = true
+					}
+				}
+			}
+		}
+	}
+	for _, f := range fns {
+		if f.Pkg == nil && f.Parent() == nil || !strings.HasPrefix(pkgPathOfFn(f), modPath) {
+			continue
+		}
+		for _, cs := range callsIn(f) {
+			cl, key, ok := isLoad(cs)
+			if !ok || !nilable[key] || c05LinkInvariant[key[strings.LastIndex(key, ".")+1:]] != "" {
+				continue
+			}
+			src := shortDesc(describe(cl.Call.Args[0]))
+			seen := map[ssa.Value]bool{}
+			var uses func(v ssa.Value)
+			uses = func(v ssa.Value) {
+				if seen[v] {
+					return
+				}
+				seen[v] = true
+				for _, u := range referrers(v) {
+					deref := false
+					switch x := u.(type) {
+					case *ssa.Phi:
+						// the value flows on only along edges on which it is not already known to be non-nil
+						guardedEverywhere := true
+						for i, e := range x.Edges {
+							if e != v {
+								continue
+							}
+							pred := x.Block().Preds[i]
+							if !hasFact(factsAt(pred.Instrs[len(pred.Instrs)-1]), isNilTest(v)) {
+								guardedEverywhere = false
+							}
+						}
+						if !guardedEverywhere {
+							uses(x)
+						}
+						continue
+					case *ssa.Store:
+						// kept in a local variable that is assigned once: its loads are the value
+						if a, isA := x.Addr.(*ssa.Alloc); isA && x.Val == v && singleStore(a) == v {
+							for _, u2 := range referrers(a) {
+								if ld, isLd := u2.(*ssa.UnOp); isLd && ld.Op == token.MUL {
+									uses(ld)
+								}
+							}
+						}
+						continue
+					case *ssa.FieldAddr:
+						deref = x.X == v
+					case *ssa.UnOp:
+						deref = x.Op == token.MUL && x.X == v
+					case ssa.CallInstruction:
+						cc := x.Common()
+						if g := cc.StaticCallee(); g != nil && len(cc.Args) > 0 && cc.Args[0] == v && g.Signature.Recv() != nil && g.Blocks != nil && strings.HasPrefix(pkgPathOfFn(g), modPath) {
+							deref = true
+						}
+					}
+					if !deref {
+						continue
+					}
+					n++
+					ok := knownNonNil(v) || hasFact(factsAt(u), isNilTest(v))
+					r.Check("C05.panics", fmt.Sprintf("%s/value loaded from %s is used only when not nil", fname(f), src), m.Pos(u.Pos()), ok,
+						"a pointer read from a shared atomic.Pointer that the code elsewhere tests for nil (no file mapped, rotation failed) must be tested, in this function and after it was loaded, before it is used")
+				}
+			}
+			uses(cl)
+		}
+	}
+	r.Check("C05.panics", "uses of pointers loaded from shared atomic pointers enumerated", "-", n >= 1, fmt.Sprintf("%d", n))
 }
